@@ -1,5 +1,33 @@
-(** C06 -- placeholder while the proofs are built *)
-From RL Require Import Model.Decode.
-Theorem C06_placeholder : m_decode strict_opts [] = Val (Err [IncompleteFlags], []).
-Proof. reflexivity. Qed.
-Print Assumptions C06_placeholder.
+(** C06 -- The encoder emits exactly the specified octets.  [s_encode] /
+    [s_enc_avp] (Spec/SpecEncode.v) state the layout once: flag word, big-endian
+    header fields in RFC 2661 order, AVP header with M set, vendor 0, H only on
+    hidden AVPs, attribute type, reserved octets zero, value format per kind,
+    lengths computed up front.  The Model encoder (placeholders back-patched with
+    write_bytes_at) produces exactly that behind whatever the writer holds, or
+    panics when the value does not fit its length field. *)
+From RL Require Import Model.Encode Spec.SpecEncode Proofs.RefineEncode Proofs.EncodeFacts.
+
+Theorem C06_encode_refines_spec : forall v p,
+  m_encode v p = if encodable v then Val (p ++ s_encode v) else Panic PkAssert.
+Proof. exact encode_octets. Qed.
+
+Theorem C06_avp_refines_spec : forall a p,
+  m_enc_avp a p = if avp_fits a then Val (p ++ s_enc_avp a) else Panic PkAssert.
+Proof. exact enc_avp_octets. Qed.
+
+(** with the writer's overwrite log *)
+Theorem C06_encode_writer : forall v w,
+  m_encode_w v w = if encodable v
+                   then Val (mkw (w_data w ++ s_encode v) (w_log w ++ msg_log (w_len w) v))
+                   else Panic PkAssert.
+Proof. exact encode_refines. Qed.
+
+Example C06_example :
+  m_encode (Control {| c_length := 0; c_tunnel := 1; c_session := 2; c_ns := 3; c_nr := 4;
+                       c_avps := [AMessageType Hello; ABytes HostName [97; 98; 99]] |}) [255]
+  = Val [255; 19;32; 0;29; 0;1; 0;2; 0;3; 0;4; 1;8;0;0;0;0;0;6; 1;9;0;0;0;7;97;98;99].
+Proof. vm_compute. reflexivity. Qed.
+
+Print Assumptions C06_encode_refines_spec.
+Print Assumptions C06_avp_refines_spec.
+Print Assumptions C06_encode_writer.
